@@ -63,6 +63,9 @@ fn untag(v: &Value) -> Value {
         json!(b.as_bool().unwrap())
     } else if v.get("z").is_some() {
         Value::Null
+    } else if let Some(f) = v.get("f") {
+        // a number that is not an integer in the range of js_int::Int: 1 -> 1.5, 2 -> 2^53 + 1
+        if f.as_i64() == Some(1) { json!(1.5) } else { json!(9007199254740993u64) }
     } else if let Some(a) = v.get("a") {
         Value::Array(a.as_array().unwrap().iter().map(untag).collect())
     } else {
